@@ -265,15 +265,21 @@ theorem C16_terminates_needs_finite :
 open Scalibr.Cache in
 /-- **C16_cache_inv.** In every state reachable by any interleaving (any number of callers, keys, SetMap/GetMap
 calls): at most one fetch is in flight per key (two callers fetching the same key are the same caller), the
-pending-call table points exactly at it, and a caller only waits on a call created for its own key. -/
+pending-call table points exactly at it, a caller only waits on a call created for its own key, and while a call for `k`
+is in flight no fetch for `k` has succeeded since the last SetMap (so the in-flight fetch is never redundant). -/
 theorem C16_cache_inv (keyOf : Nat → Option Cache.K) (as : List Cache.Act) :
     let s := Cache.run keyOf as
     (∀ t t' c c' k, s.pcs t = .fetching c k → s.pcs t' = .fetching c' k → t = t') ∧
     (∀ t c k, s.pcs t = .fetching c k → s.calls k = some c) ∧
     (∀ k c, s.calls k = some c → ∃ t, s.pcs t = .fetching c k) ∧
-    (∀ t c k, s.pcs t = .waiting c k → s.ckey c = some k) :=
+    (∀ t c k, s.pcs t = .waiting c k → s.ckey c = some k) ∧
+    (∀ k c, s.calls k = some c → s.succeeded k = false) :=
   let h := Cache.inv_run keyOf as
-  ⟨h.fetch_uniq, h.fetch_calls, h.calls_owner, fun t c k hw => (h.ckey_wait t c k hw).1⟩
+  ⟨h.fetch_uniq, h.fetch_calls, h.calls_owner, fun t c k hw => (h.ckey_wait t c k hw).1,
+   fun k c hc => by
+     cases hs : (Cache.run keyOf as).succeeded k with
+     | false => rfl
+     | true => have := h.succ_nocall k hs; rw [hc] at this; cases this⟩
 
 open Scalibr.Cache in
 /-- **C16_cache_once.** (i) No fetch is ever *started* for a key that has had a successful fetch since the last
